@@ -370,6 +370,19 @@ fn k2_sync_terminate() {
     assert!(sig.is_terminated());
 }
 
+/// a terminator identifies exactly the signal it was taken from (what cancel_* / *_exists rely on)
+#[kani::proof]
+fn k2_terminator_identity() {
+    let a = Signal::<u32>::new_async();
+    let b = Signal::<u32>::new_async();
+    let ta = a.get_terminator();
+    let tb = b.get_terminator();
+    assert!(ta == a);
+    assert!(tb == b);
+    assert!(!(ta == b));
+    assert!(!(tb == a));
+}
+
 // ---------------------------------------------------------------- K4: handle layout (C09)
 macro_rules! k4 {
     ($name:ident, $t:ty) => {
